@@ -2406,7 +2406,8 @@ pub fn check_c20(ix: &Ix<'_>, v: &mut Vec<Violation>) {
         return;
     }
     let conn = 0usize;
-    let t_of = |seq: u64| -> u64 { out.hist.iter().find(|e| e.seq >= seq).map_or(0, |e| e.t_ms) };
+    // (the history is ordered by sequence number: binary search - long histories are judged too)
+    let t_of = |seq: u64| -> u64 { out.hist.get(out.hist.partition_point(|e| e.seq < seq)).map_or(0, |e| e.t_ms) };
     let end_ms = out.hist.iter().filter(|e| ix.settle_seq.is_none_or(|s| e.seq <= s)).map(|e| e.t_ms).max().unwrap_or(0);
     let mode = out.plan.tags.iter().find_map(|t| t.strip_prefix("mode:")).unwrap_or("");
     let stop = ix.stops.iter().find(|s| s.1 == conn);
@@ -2963,7 +2964,7 @@ pub fn check_all(out: &RunOut) -> Vec<Violation> {
                 viol(&mut v, "C10", format!("C10/valid-stream-ended-connection/{}", ix.role()), format!("the peer sent only valid packets, the endpoint ended the connection with {m}"), *sq);
             }
         }
-        "C20" => {
+        "C20" | "C20L" => {
             check_c20(&ix, &mut v);
         }
         "C19" | "C19C" => {
